@@ -279,6 +279,13 @@ impl IndentationVisitor {
                 if let Some(last) = syms.last() {
                     let after_last = last.position.end_offset;
                     match self.src[after_last..].find(')') {
+                        // A comment before the closing paren may
+                        // itself contain `)`, so leave this alone.
+                        Some(offset)
+                            if self.src[after_last..after_last + offset].contains("//") =>
+                        {
+                            return
+                        }
                         Some(offset) => after_last + offset + 1,
                         None => return,
                     }
